@@ -14,6 +14,11 @@
    c2mir_init: the context is a zeroed `struct c2m_ctx` with `options` (message_file) and `node_positions` only - all
    that `eval`, `error` and `POS` touch.
    Oracle: ref/ppif_ref.h (C11 6.10.1p4 + 6.6 + 6.5.x).  `error ()` is observable through c2m_ctx->n_errors.
+   -DH_C0=<v>      leaf slot 0 (first operand of the outer operator) is the constant v of kind N_LL
+   -DH_C3=<v>      leaf slot 3 (first operand of the inner operator) is the constant v of kind N_LL
+                   used for the condition of ?: - `NL_EL (ops, cond ? 1 : 2)` then selects the arm by a constant index
+                   (with a symbolic condition the arm is a symbolic pointer and symbolic execution explores every case
+                   of eval for it and for its operands: 25 M clauses for one ?: over leaves)
    -DH_DIV0=1      (shape 1, OP = / or %) the divisor is zero: a diagnostic must be reported
    -DH_EXCLUDE_F6  assume away exactly the operand-type combinations of finding F6 (see props/C09.py) */
 #include "h.h"
@@ -42,7 +47,7 @@ int fprintf (FILE *f, const char *fmt, ...) { (void) f; (void) fmt; return 0; }
 #define H_OP1_LO 0
 #endif
 #ifndef H_OP1_HI
-#define H_OP1_HI PPIF_NOPS
+#define H_OP1_HI 23 /* PPIF_NOPS */
 #endif
 
 #define H_NN 8
@@ -71,8 +76,7 @@ static node_t h_new (node_code_t code) {
   n->uid = (unsigned) h_nn++;
   n->attr = NULL;
   n->op_link.prev = n->op_link.next = NULL;
-  n->u.s.s = NULL; /* zero the first 16 bytes of the value union (= u.ops.head/tail) */
-  n->u.s.len = 0;
+  n->u.s = (str_t){NULL, 0}; /* zero the value union (= u.ops.head/tail) with one full-width write */
   return n;
 }
 
@@ -121,8 +125,7 @@ static node_t h_op (ppif_op op, node_t k[3], ppif_val kv[3], ppif_val *v) {
       k[i]->op_link.prev = i > 0 ? k[i - 1] : NULL;
       k[i]->op_link.next = i + 1 < ar ? k[i + 1] : NULL;
     }
-  n->u.s.s = (const char *) k[0];
-  n->u.s.len = (size_t) k[ar - 1];
+  n->u.s = (str_t){(const char *) k[0], (size_t) k[ar - 1]}; /* one full-width write of the union */
   H_ASSERT (NL_HEAD (n->u.ops) == k[0] && NL_TAIL (n->u.ops) == k[ar - 1] && NL_EL (n->u.ops, ar) == NULL
               && NL_EL (n->u.ops, ar - 1) == k[ar - 1] && NL_EL (n->u.ops, 1) == (ar > 1 ? k[1] : NULL),
             "harness: hand-written operand list reads back through the real DLIST accessors");
@@ -180,7 +183,7 @@ static void h_case (ppif_op op, ppif_op op1, const unsigned c[6]) {
   H_ASSUME (!exp.undef);
   if (exp.diag) {
     H_ASSERT (n_errors != 0, "division/remainder by zero in an evaluated position is diagnosed");
-#if defined(H_DIV0) || H_SHAPE == 2
+#if defined(H_DIV0) || (H_SHAPE == 2 && (OP == 13 || OP == 14 || (H_OP1_LO <= 14 && H_OP1_HI > 13)))
     H_WITNESS ("zero divisor evaluated");
 #endif
   } else {
@@ -217,7 +220,7 @@ void harness (void) {
   ppif_op sel1 = (ppif_op) nd ();
   H_ASSUME (sel1 >= H_OP1_LO && sel1 < H_OP1_HI);
   H_ASSUME (H_POS < ppif_arity (op));
-  for (int o1 = H_OP1_LO; o1 < H_OP1_HI; o1++)
+  for (int o1 = H_OP1_LO; o1 < H_OP1_HI; o1++) {
     if (sel1 == (ppif_op) o1) {
       ppif_op op1 = (ppif_op) o1;
       for (int i = 0; i < 3; i++) {
@@ -232,6 +235,14 @@ void harness (void) {
         used[i] = H_SHAPE == 0 ? i == 0 : i < ppif_arity (op);
         used[3 + i] = 0;
       }
+#endif
+#ifdef H_C0
+      used[0] = 0; /* kind N_LL */
+      h_bits[0] = (uint64_t) (H_C0);
+#endif
+#ifdef H_C3
+      used[3] = 0;
+      h_bits[3] = (uint64_t) (H_C3);
 #endif
       /* all combinations of leaf kinds of the leaves in use; unused leaves stay of kind 0 */
       for (c[0] = 0; c[0] < (used[0] ? H_NK : 1); c[0]++)
